@@ -359,9 +359,12 @@ theorem field_edge_colon (field : List Char) (chunks : List (List Char)) (hs : s
 
 /-- `parse_render`: every structured query — any number of statuses, authors, actors,
 participants, labels, titles, metadata pairs, search terms, `no:label`, any sort — written through
-the grammar of doc/queries.md (values in double quotes, one space between tokens) parses back to
-exactly that query.  Values may hold anything but the double quote: spaces, colons, single quotes,
-unicode.  (Proved in `Lemmas/Lexer` and `Lemmas/ParseRender` over the lexer's quote automaton.) -/
+the grammar of doc/queries.md (every value between quotes of the kind it does not contain: double
+quotes, or single quotes for a value holding a double quote; one space between tokens) parses
+back to exactly that query.  Values may hold anything but both kinds of quote at once, which the
+grammar cannot express (`Quotable`): spaces, colons, one kind of quote, unicode.  (Proved in
+`Lemmas/Lexer` and `Lemmas/ParseRender` over the lexer's quote automaton, for either quote
+character.) -/
 theorem parse_render (isSpace : Char → Bool) (clean : String → String)
     (hsp : isSpace ' ' = true) (hcolon : isSpace ':' = false)
     (hlow : ∀ c : Char, c.isLower = true → isSpace c = false)
@@ -397,6 +400,12 @@ example : errOf (parse sp cl "a:b:c:d") = some (.lex .tooManySeparators) := by d
 example :
     let q : Query := { status := [2], author := ["R D"], search := ["a: 'b'"], orderBy := .id, dir := .asc }
     String.ofList (joined ' ' ((renderQuery q).map RTok.segs)) = "status:\"closed\" author:\"R D\" \"a: 'b'\" sort:\"id-asc\"" ∧
+    (parse sp cl (String.ofList (joined ' ' ((renderQuery q).map RTok.segs)))).toOption = some q := by
+  decide
+/-- a value holding a double quote is written between single quotes, and comes back -/
+example :
+    let q : Query := { title := ["say \"hi\""], label := ["it's"], orderBy := .creation, dir := .desc }
+    String.ofList (joined ' ' ((renderQuery q).map RTok.segs)) = "label:\"it's\" title:'say \"hi\"' sort:\"creation-desc\"" ∧
     (parse sp cl (String.ofList (joined ' ' ((renderQuery q).map RTok.segs)))).toOption = some q := by
   decide
 
